@@ -38,7 +38,7 @@ for p in props:
       "technique": tech})
 m={"version":1,
    "setup_cmd":"./setup.sh",
-   "hooks":{"guard":"verif","enable":"no hook is needed: the checks build /repo as it is (plugin binary built from the working tree, driven from outside)","baseline_off_cmd":"cd /repo && go test -vet=off -count=1 ./...","source_commits":[],"add_only":True},
+   "hooks":{"guard":"verif","enable":"vh prepare builds a second binary with `go build -tags verif` from /repo's working tree (verif_probe.go: JSON line protocol over the pure text functions Comment.ToSingleLine, replacePackageName, GetJSONName, Imports.*); the plugin binary that generates the corpus is built WITHOUT the tag","baseline_off_cmd":"cd /repo && go test -vet=off -count=1 ./...","source_commits":["ba44045"],"add_only":True},
    "engines":[{"name":"rocq+correspondence","path":"check","serves_properties":[p['id'] for p in props],"kind_free_text":"Rocq (Coq 8.16.1) theorems about a hand-written executable model (coq/), re-checked by coqc on every run; the model is extracted to OCaml and replays every case the real generator's output executed (harness/, ocaml/); property oracles on the implementation's observables"}],
    "checks":checks,
    "notes":"All checks share one preparation per (tree of /repo, sources of /verif, tier, seed) under /verif/.cache/runs; the first check of a run pays for it (about a minute at the quick tier). VERIF_SEED seeds the one PRNG. /repo carries 11 'fix:' commits for genuine defects found by this machinery (known_findings.json).",
